@@ -1,5 +1,7 @@
 package main
 
+import "golang.org/x/tools/go/ssa"
+
 func init() { register("C13", checkC13) }
 
 // C13 — AOL counters and listings equal the real contents.
@@ -15,4 +17,5 @@ func checkC13(p *Prog, r *Report) {
 		return false
 	})
 	aolListings(p, r, m, "C13")
+	r.Floor("in-loop-decode-targets(x/aol)", checkLoopFreshDecode(p, r, "C13", func(fn *ssa.Function) bool { return InPkgs(fn, "x/aol") }), 4)
 }
